@@ -478,6 +478,14 @@ class FDE:
             return lambda *a, **k: self._invoke(call_, [v] + list(a), dict(k))
         if isinstance(v, tuple) and v and v[0] in ('unbound', 'ntclass', 'partial'):
             return lambda *a, **k: self._apply(v, list(a), dict(k), ast.Name(id='<callback>', ctx=ast.Load()))
+        if isinstance(v, tuple) and len(v) == 2 and v[0] == 'class' and v[1] in ('list', 'tuple', 'set', 'frozenset', 'dict') and v[1] not in self.repo.classes:
+            ctor_ = {'list': list, 'tuple': tuple, 'set': set, 'frozenset': frozenset, 'dict': dict}[v[1]]
+
+            def build(*a, **k):
+                if k or len(a) > 1 or (a and not (isinstance(a[0], (list, tuple, set, frozenset, dict)) or type(a[0]).__name__ in _ITER_TYPES)):
+                    raise Unsupported('%s(...) of abstract values' % v[1])
+                return ctor_(*a)       # map(list, rows) and the like: the builtin container constructors only rearrange the elements
+            return build
         raise Unsupported('callable %r' % (v,))
 
     def _run(self, stmts, env, fi):
@@ -1062,6 +1070,9 @@ class FDE:
                 if isinstance(g, ast.Call) and unparse(g.func) in ('operator.methodcaller', 'methodcaller', 'operator.itemgetter', 'itemgetter', 'operator.attrgetter', 'attrgetter') \
                         and fi.module.constant_binding(e.id) is g:
                     return self._call(g, {}, fi)
+                if isinstance(g, ast.Call) and unparse(g.func) in ('functools.partial', 'partial') and fi.module.constant_binding(e.id) is g and g.args \
+                        and unparse(g.args[0]).startswith('operator.') and all(isinstance(a_, ast.Constant) for a_ in g.args[1:]) and not g.keywords:
+                    return self._ev(g, {}, fi)      # NAME = functools.partial(operator.<fn>, <literals>): a pure function value
                 if isinstance(g, ast.Lambda) and fi.module.constant_binding(e.id) is g:
                     from .srcmodel import FuncInfo
                     return ('closure', FuncInfo(g, fi.module), {})
